@@ -12,6 +12,17 @@ from vlib.oracles import wfweight as wfref
 
 HALF = [x * 0.5 for x in range(-6, 7)]  # increments on the half-integer grid
 L0, TOP = 0.0, 4.0
+SHIFTS = [0.0, 0.0, 0.0, 3.0, 1.5, -1.0, -2.0, -3.0, -4.0, 0.5]
+
+
+def sh_of(c):
+    return float(c.get("shift", 0.0))
+
+
+def orders_of(path, c):
+    """Order values of a returned path, translated back to the unshifted system."""
+    d = sh_of(c)
+    return [pp.order[0] - d for pp in path.phasepoints]
 
 
 def outside(x, left, right):
@@ -91,6 +102,9 @@ def shoot_cases(draw):
         "xi_mode": draw(st.sampled_from(["uniform", "at", "below", "above", "at-1", "at+1"])),
         "xi": draw(st.floats(0.001, 0.999)),
         "via_run_md": draw(st.booleans()),
+        # the same system translated along the order-parameter axis (all values are multiples of 1/2, so exact):
+        # puts lambda_-1 (-3), lambda_0 (0), the middle interfaces or the cap on 0.0 / away from it
+        "shift": draw(st.sampled_from(SHIFTS)),
     }
 
 
@@ -183,12 +197,13 @@ def build(c, wd, script, veldep=False, kick=False):
     e = c["ens"]
     eng = mk.make_engine(wd, script, veldep=veldep, kick=kick)
     gen = ("ld", float("nan"), 0, 0) if c.get("loaded") else (c.get("origin", "sh"), float("nan") if c.get("origin") == "re" else 0.0, 0, 0)
-    old, fname = mk.make_path(wd, "old", c["old"], c["maxlength"], generated=gen, path_number=7)
+    d = sh_of(c)
+    old, fname = mk.make_path(wd, "old", [x + d for x in c["old"]], c["maxlength"], generated=gen, path_number=7)
     tis_set = {"maxlength": c["maxlength"], "allowmaxlength": c.get("allowmaxlength", False), "zero_momentum": False,
-               "n_jumps": c.get("n_jumps", 2), "quantis": False, "lambda_minus_one": (-3.0 if e["kind"] == "minus_lm1" else False), "accept_all": False}
+               "n_jumps": c.get("n_jumps", 2), "quantis": False, "lambda_minus_one": (-3.0 + d if e["kind"] == "minus_lm1" else False), "accept_all": False}
     if c.get("cap") is not None:
-        tis_set["interface_cap"] = c["cap"]
-    ens_set = {"interfaces": intf_of(e), "tis_set": tis_set, "mc_move": c.get("move", "sh"), "ens_name": "007",
+        tis_set["interface_cap"] = c["cap"] + d
+    ens_set = {"interfaces": tuple(x + d for x in intf_of(e)), "tis_set": tis_set, "mc_move": c.get("move", "sh"), "ens_name": "007",
                "start_cond": e["start_cond"], "rgen": None}
     return eng, old, fname, ens_set
 
@@ -205,6 +220,7 @@ def call_move(c, eng, old, ens_set, rng, wd, via_run_md):
     tis.ENGINES = {"engine": [eng]}
     all_intf = [L0, 1.0, 2.0, 3.0, TOP]
     ens_num = -1 if c["ens"]["kind"] != "plus" else all_intf.index(float(c["ens"]["intf"][1]))
+    all_intf = [x + sh_of(c) for x in all_intf]
     picked = {ens_num: {"ens": ens_set, "traj": old, "pn_old": old.path_number, "eng_idx": {"engine": 0}, "exe_dir": wd.exe, "rgen-eng": eng.rgen}}
     md = {"picked": picked, "mc_moves": ["sh"] + [ens_set["mc_move"]] * len(all_intf), "interfaces": all_intf, "cap": ens_set["tis_set"].get("interface_cap"),
           "moves": [], "trial_len": [], "trial_op": [], "generated": []}
@@ -241,7 +257,7 @@ def body_shoot(rec, c):
             classes.append("shoot:xi-at-threshold:" + c["xi_mode"])
         rec.case(key=[c, xi], nontrivial=bool(acc or near or hit_limit), classes=classes,
                  sample={"ens": c["ens"], "old": c["old"], "shooting_index": s, "xi": xi, "maxlength": c["maxlength"], "status": status,
-                         "new": [pp.order[0] for pp in new.phasepoints] if new is not None else None} if acc and len(rec.samples) < 2 else None)
+                         "new": orders_of(new, c) if new is not None else None} if acc and len(rec.samples) < 2 else None)
         # (4) shooting index never an end point
         draws = [d for d in rng.log if d[0] == "integers"]
         if draws:
@@ -261,12 +277,12 @@ def body_shoot(rec, c):
                 rec.check(False, "sh:valid-trial-rejected" + (":trajectory-ends-exactly-at-limit" if in_f1 else ""),
                           f"reference accepts (n_old={n_old}, n_new={n_new}, xi={xi!r} <= {Fraction(n_old, n_new)}), move returned {status}; {info}")
             else:
-                got = [pp.order[0] for pp in new.phasepoints]
+                got = orders_of(new, c)
                 rec.check(got == val, "sh:accepted-path-differs-from-scripted-trajectories", f"got {got} want {val} {info}")
         else:
-            rec.check(not acc, f"sh:accepted-although-reference-rejects:{val}", f"status {status}; new={[pp.order[0] for pp in new.phasepoints] if new else None} {info}")
+            rec.check(not acc, f"sh:accepted-although-reference-rejects:{val}", f"status {status}; new={orders_of(new, c) if new else None} {info}")
         if acc:
-            got = [pp.order[0] for pp in new.phasepoints]
+            got = orders_of(new, c)
             membership(rec, "sh", got, c["ens"], c["maxlength"], info)
             rec.check(c["old"][s] in got, "sh:accepted-path-lacks-shooting-point", info)
             if c["via_run_md"]:
@@ -304,6 +320,7 @@ def wf_cases(draw):
         "ints": draw(st.lists(st.integers(0, 40), min_size=nj, max_size=nj)),
         "rands": draw(st.lists(st.floats(0, 1, exclude_max=True), min_size=nj + 2, max_size=nj + 2)),
         "via_run_md": draw(st.booleans()),
+        "shift": draw(st.sampled_from(SHIFTS + [-3.5])),  # -3, -3.5, -4: the cap on 0.0
     }
 
 
@@ -331,19 +348,20 @@ def body_wf(rec, c):
         if c["cap"] is not None:
             classes.append("wf:cap")
         rec.case(key=c, nontrivial=bool(acc) or bool(nsucc and nfail), classes=classes,
-                 sample={"old": c["old"], "intf": c["ens"]["intf"], "cap": c["cap"], "status": status, "new": [pp.order[0] for pp in new.phasepoints] if new is not None else None}
+                 sample={"old": c["old"], "intf": c["ens"]["intf"], "cap": c["cap"], "status": status, "new": orders_of(new, c) if new is not None else None}
                  if acc and len(rec.samples) < 2 else None)
         rec.check((status == "ACC") == bool(acc), "wf:accept-flag-and-status-disagree", f"{acc} {status}")
         if w_old == 0:
             rec.check(not acc, "wf:accepted-from-path-without-eligible-frames", info)
         if acc:
-            got = [pp.order[0] for pp in new.phasepoints]
+            got = orders_of(new, c)
             membership(rec, "wf", got, c["ens"], c["maxlength"], info)
             w_new = wfref.wf_weight(got, mid, cap)
             rec.check(w_new > 0, "wf:accepted-path-has-zero-weight-in-own-ensemble", f"{got} [{mid},{cap}) {info}")
             # time order: every consecutive pair is a consecutive pair (either direction) of the old path or of one scripted trajectory
             pairs = set()
-            for seq in [c["old"]] + [cl["frames"] for cl in eng.calls]:
+            d = sh_of(c)  # the engine's own record is in the translated system
+            for seq in [c["old"]] + [[x - d for x in cl["frames"]] for cl in eng.calls]:
                 for a, b in zip(seq, seq[1:]):
                     pairs.add((a, b))
                     pairs.add((b, a))
